@@ -2,5 +2,4 @@ package main
 
 func genLockProg() {}
 func genSites()    {}
-func genLabels()   {}
 func genStatus()   {}
